@@ -165,7 +165,7 @@ pub(super) mod udp {
         type Error = anyhow::Error;
 
         fn encode(&mut self, (content, addr): DatagramPacket, dst: &mut BytesMut) -> anyhow::Result<()> {
-            self.session.increase_packet_id();
+            self.session.increase_packet_id()?;
             self.codec.encode((content, addr, self.session.clone()), dst)
         }
     }
